@@ -90,7 +90,767 @@ Lemma check_set_spec : forall q ro c v,
   (valid_for c v = true /\ (ro = false \/ (c = CStr /\ q_str_ignores_ro q = true))).
 Proof.
   intros q ro c v.
-  destruct (q_str_ignores_ro q) eqn:Hq; destruct c; destruct ro; simpl; destruct v; simpl;
-    repeat match goal with |- context [if ?b then _ else _] => destruct b eqn:? end; simpl;
+  destruct (q_str_ignores_ro q) eqn:Hq; destruct c; destruct ro; simpl; rewrite ?Hq; simpl; destruct v; simpl;
+    repeat match goal with
+           | |- context [N.eqb ?a ?b] => destruct (N.eqb a b) eqn:?
+           | |- context [between ?a ?b ?c] => destruct (between a b c) eqn:?
+           | |- context [mem_str ?a ?b] => destruct (mem_str a b) eqn:?
+           end; simpl;
     intuition (try discriminate; try congruence).
+Qed.
+
+Lemma check_set_repaired : forall ro c v,
+  check_set repaired ro c v = None <-> (ro = false /\ valid_for c v = true).
+Proof.
+  intros. rewrite check_set_spec. simpl. intuition discriminate.
+Qed.
+
+(* set_value on the repaired code: success = a writable leaf, a valid value, and
+   nothing but the value changes *)
+Lemma set_value_val : forall q v p p',
+  set_value q v p = Val p' ->
+  exists h ro c d v0, p = Leaf h ro c d v0 /\ p' = Leaf h ro c d v /\ valid_for c v = true /\
+                      (ro = false \/ (c = CStr /\ q_str_ignores_ro q = true)).
+Proof.
+  intros q v p p' H. destruct p as [h ro c d v0|h ch]; simpl in H; [|discriminate].
+  destruct (check_set q ro c v) eqn:E; [discriminate|].
+  inversion H; subst. apply check_set_spec in E. destruct E as [E1 E2].
+  exists h, ro, c, d, v0. auto.
+Qed.
+
+Lemma set_value_repaired_val : forall v p p',
+  set_value repaired v p = Val p' ->
+  exists h c d v0, p = Leaf h false c d v0 /\ p' = Leaf h false c d v /\ valid_for c v = true.
+Proof.
+  intros v p p' H. apply set_value_val in H.
+  destruct H as (h & ro & c & d & v0 & -> & -> & Hv & [->|[_ Hq]]); [|discriminate].
+  exists h, c, d, v0. auto.
+Qed.
+
+(* ================================================================== child lists *)
+Lemma find_child_key : forall k ch c, find_child k ch = Some c -> pkey c = k.
+Proof.
+  induction ch as [|x r IH]; simpl; intros c H; [discriminate|].
+  destruct (String.eqb k (pkey x)) eqn:E.
+  - inversion H; subst. symmetry. apply String.eqb_eq, E.
+  - apply IH, H.
+Qed.
+
+Lemma find_child_in : forall k ch c, find_child k ch = Some c -> In c ch.
+Proof.
+  induction ch as [|x r IH]; simpl; intros c H; [discriminate|].
+  destruct (String.eqb k (pkey x)); [inversion H; auto | right; apply IH, H].
+Qed.
+
+Lemma find_child_none : forall k ch, find_child k ch = None <-> ~ In k (map pkey ch).
+Proof.
+  induction ch as [|x r IH]; simpl; [tauto|].
+  destruct (String.eqb k (pkey x)) eqn:E.
+  - apply String.eqb_eq in E. split; [discriminate | intros H; exfalso; apply H; auto].
+  - apply String.eqb_neq in E. rewrite IH. split; [intros H [H1|H1]; [congruence | auto] | tauto].
+Qed.
+
+Lemma find_child_nodup : forall ch c, NoDup (map pkey ch) -> In c ch -> find_child (pkey c) ch = Some c.
+Proof.
+  induction ch as [|x r IH]; simpl; intros c Hnd Hin; [tauto|].
+  inversion Hnd as [|? ? Hx Hr]; subst.
+  destruct Hin as [->|Hin].
+  - rewrite String.eqb_refl. reflexivity.
+  - destruct (String.eqb (pkey c) (pkey x)) eqn:E.
+    + apply String.eqb_eq in E. exfalso. apply Hx. rewrite <- E. apply in_map, Hin.
+    + apply IH; assumption.
+Qed.
+
+Lemma has_key_false : forall k ch, has_key k ch = false -> ~ In k (map pkey ch).
+Proof. unfold has_key. intros k ch H. apply find_child_none. destruct (find_child k ch); [discriminate | reflexivity]. Qed.
+
+Lemma map_replace_child : forall (A : Type) (g : param -> A) k c c' ch,
+  find_child k ch = Some c -> g c' = g c -> map g (replace_child k c' ch) = map g ch.
+Proof.
+  induction ch as [|x r IH]; simpl; intros H Hg; [reflexivity|].
+  destruct (String.eqb k (pkey x)); simpl.
+  - inversion H; subst. now rewrite Hg.
+  - now rewrite IH.
+Qed.
+
+Lemma Forall_replace_child : forall (P : param -> Prop) k c' ch,
+  Forall P ch -> P c' -> Forall P (replace_child k c' ch).
+Proof.
+  induction ch as [|x r IH]; simpl; intros HF Hc; [constructor|].
+  inversion HF; subst. destruct (String.eqb k (pkey x)); constructor; auto.
+Qed.
+
+Lemma In_replace_child : forall k c' ch y, In y (replace_child k c' ch) -> y = c' \/ In y ch.
+Proof.
+  induction ch as [|x r IH]; simpl; intros y H; [tauto|].
+  destruct (String.eqb k (pkey x)); simpl in H; destruct H as [H|H]; auto.
+  destruct (IH _ H); auto.
+Qed.
+
+Lemma find_child_replace_same : forall k c c' ch,
+  find_child k ch = Some c -> pkey c' = k -> find_child k (replace_child k c' ch) = Some c'.
+Proof.
+  induction ch as [|x r IH]; simpl; intros H Hk; [discriminate|].
+  destruct (String.eqb k (pkey x)) eqn:E; simpl.
+  - rewrite Hk, String.eqb_refl. reflexivity.
+  - rewrite E. apply IH; assumption.
+Qed.
+
+Lemma find_child_replace_other : forall k k' c' ch,
+  pkey c' = k -> String.eqb k' k = false -> find_child k' (replace_child k c' ch) = find_child k' ch.
+Proof.
+  induction ch as [|x r IH]; simpl; intros Hk Hne; [reflexivity|].
+  destruct (String.eqb k (pkey x)) eqn:E; simpl.
+  - apply String.eqb_eq in E. rewrite Hk, <- E, Hne. reflexivity.
+  - destruct (String.eqb k' (pkey x)); [reflexivity | apply IH; assumption].
+Qed.
+
+Lemma In_remove_child : forall k ch y, In y (remove_child k ch) -> In y ch.
+Proof.
+  induction ch as [|x r IH]; simpl; intros y H; [tauto|].
+  destruct (String.eqb k (pkey x)); [auto | destruct H; auto].
+Qed.
+
+Lemma Forall_remove_child : forall (P : param -> Prop) k ch, Forall P ch -> Forall P (remove_child k ch).
+Proof.
+  intros P k ch H. apply Forall_forall. intros y Hy. apply In_remove_child in Hy.
+  rewrite Forall_forall in H. auto.
+Qed.
+
+Lemma find_child_remove_other : forall k k' ch,
+  String.eqb k' k = false -> find_child k' (remove_child k ch) = find_child k' ch.
+Proof.
+  induction ch as [|x r IH]; simpl; intros Hne; [reflexivity|].
+  destruct (String.eqb k (pkey x)) eqn:E; simpl.
+  - apply String.eqb_eq in E. rewrite <- E, Hne. reflexivity.
+  - destruct (String.eqb k' (pkey x)); [reflexivity | apply IH; assumption].
+Qed.
+
+Lemma find_child_remove_same : forall k ch, NoDup (map pkey ch) -> find_child k (remove_child k ch) = None.
+Proof.
+  induction ch as [|x r IH]; simpl; intros Hnd; [reflexivity|].
+  inversion Hnd as [|? ? Hx Hr]; subst.
+  destruct (String.eqb k (pkey x)) eqn:E; simpl.
+  - apply String.eqb_eq in E. subst. apply find_child_none, Hx.
+  - rewrite E. apply IH, Hr.
+Qed.
+
+(* ================================================================== order of children *)
+(* listed by display priority, ties by identity = creation = insertion order *)
+Definition hord_lt (a b : hdr) : Prop :=
+  (h_prio a < h_prio b)%Q \/ ((h_prio a == h_prio b)%Q /\ (h_id a < h_id b)%nat).
+
+Definition key_ok (k : string) : Prop := k <> EmptyString /\ has_dot k = false.
+
+Definition hdrs_ok (hs : list hdr) : Prop :=
+  NoDup (map h_key hs) /\ Forall key_ok (map h_key hs) /\ StronglySorted hord_lt hs.
+
+Definition children_ok (ch : list param) : Prop := hdrs_ok (map phdr ch).
+
+Lemma map_pkey_phdr : forall ch, map pkey ch = map h_key (map phdr ch).
+Proof. intros. rewrite map_map. reflexivity. Qed.
+
+(* p is placed after every child whose priority is <= its own *)
+Fixpoint place (p : param) (ch : list param) : list param :=
+  match ch with
+  | [] => [p]
+  | y :: r => if Qle_bool (pprio y) (pprio p) then y :: place p r else p :: ch
+  end.
+
+Definition prio_le (a b : param) : Prop := (pprio a <= pprio b)%Q.
+
+Lemma insert_sorted_le : forall y l, Forall (prio_le y) l -> insert_sorted y l = y :: l.
+Proof.
+  intros y l H. destruct l as [|z l]; [reflexivity|].
+  inversion H as [|? ? Hz _]; subst. simpl. unfold prio_ltb.
+  unfold prio_le in Hz. apply Qle_bool_iff in Hz. rewrite Hz. reflexivity.
+Qed.
+
+Lemma place_Forall : forall (P : param -> Prop) p ch, P p -> Forall P ch -> Forall P (place p ch).
+Proof.
+  induction ch as [|y r IH]; simpl; intros Hp HF; [auto|].
+  inversion HF; subst. destruct (Qle_bool (pprio y) (pprio p)); auto.
+Qed.
+
+Lemma place_lt_all : forall p ch, Forall (fun y => (pprio p < pprio y)%Q) ch -> place p ch = p :: ch.
+Proof.
+  intros p ch H. destruct ch as [|y r]; [reflexivity|].
+  inversion H as [|? ? Hy _]; subst. simpl.
+  destruct (Qle_bool (pprio y) (pprio p)) eqn:E; [|reflexivity].
+  apply Qle_bool_iff in E. exfalso. apply (Qlt_not_le _ _ Hy E).
+Qed.
+
+(* sorted(items) after appending p to an already sorted dict = stable insertion *)
+Lemma py_sorted_append : forall p ch, StronglySorted prio_le ch -> py_sorted (ch ++ [p]) = place p ch.
+Proof.
+  intros p ch Hs. unfold py_sorted. rewrite fold_right_app. simpl.
+  induction Hs as [|y r Hr IH Hy]; [reflexivity|].
+  simpl. rewrite IH. destruct (Qle_bool (pprio y) (pprio p)) eqn:E.
+  - apply insert_sorted_le. apply place_Forall; [apply Qle_bool_iff, E | exact Hy].
+  - assert (Hlt : (pprio p < pprio y)%Q).
+    { apply Qnot_le_lt. intro Hle. apply Qle_bool_iff in Hle. congruence. }
+    rewrite place_lt_all.
+    + simpl. unfold prio_ltb at 1. destruct (Qle_bool (pprio y) (pprio p)); [discriminate|]. simpl.
+      rewrite insert_sorted_le by exact Hy. reflexivity.
+    + eapply Forall_impl; [|exact Hy]. intros z Hz. unfold prio_le in Hz. eapply Qlt_le_trans; eassumption.
+Qed.
+
+(* where p lands: the children are split, unchanged, around p *)
+Lemma place_split : forall p ch, StronglySorted prio_le ch ->
+  exists l1 l2, ch = l1 ++ l2 /\ place p ch = l1 ++ p :: l2 /\
+                Forall (fun y => (pprio y <= pprio p)%Q) l1 /\ Forall (fun y => (pprio p < pprio y)%Q) l2.
+Proof.
+  intros p ch Hs. induction Hs as [|y r Hr IH Hy].
+  - exists [], []. simpl. auto.
+  - simpl. destruct (Qle_bool (pprio y) (pprio p)) eqn:E.
+    + destruct IH as (l1 & l2 & -> & -> & H1 & H2). exists (y :: l1), l2. simpl.
+      repeat split; auto. constructor; [apply Qle_bool_iff, E | exact H1].
+    + exists [], (y :: r). simpl. repeat split; auto.
+      assert (Hlt : (pprio p < pprio y)%Q).
+      { apply Qnot_le_lt. intro Hle. apply Qle_bool_iff in Hle. congruence. }
+      constructor; [exact Hlt|].
+      eapply Forall_impl; [|exact Hy]. intros z Hz. unfold prio_le in Hz. eapply Qlt_le_trans; eassumption.
+Qed.
+
+Lemma place_perm : forall p ch, Permutation (place p ch) (p :: ch).
+Proof.
+  induction ch as [|y r IH]; simpl; [apply Permutation_refl|].
+  destruct (Qle_bool (pprio y) (pprio p)); [|apply Permutation_refl].
+  eapply perm_trans; [apply perm_skip, IH | apply perm_swap].
+Qed.
+
+Lemma hord_lt_trans : forall a b c, hord_lt a b -> hord_lt b c -> hord_lt a c.
+Proof.
+  unfold hord_lt. intros a b c [H1|[H1 H1']] [H2|[H2 H2']].
+  - left. eapply Qlt_trans; eassumption.
+  - left. rewrite <- H2. exact H1.
+  - left. rewrite H1. exact H2.
+  - right. split; [rewrite H1; exact H2 | lia].
+Qed.
+
+Lemma hord_lt_prio_le : forall a b, hord_lt a b -> (h_prio a <= h_prio b)%Q.
+Proof. intros a b [H|[H _]]; [apply Qlt_le_weak, H | rewrite H; apply Qle_refl]. Qed.
+
+Lemma sorted_hord_prio : forall ch, StronglySorted hord_lt (map phdr ch) -> StronglySorted prio_le ch.
+Proof.
+  induction ch as [|y r IH]; simpl; intros H; [constructor|].
+  inversion H as [|? ? Hr Hy]; subst. constructor; [apply IH, Hr|].
+  rewrite Forall_map in Hy. eapply Forall_impl; [|exact Hy]. intros z Hz. apply hord_lt_prio_le, Hz.
+Qed.
+
+(* a new object (identity above all present ones) lands so that the list stays
+   sorted by (priority, identity) *)
+Lemma place_sorted : forall p ch,
+  StronglySorted hord_lt (map phdr ch) -> Forall (fun y => (pid y < pid p)%nat) ch ->
+  StronglySorted hord_lt (map phdr (place p ch)).
+Proof.
+  induction ch as [|y r IH]; simpl; intros Hs Hid.
+  - repeat constructor.
+  - inversion Hs as [|? ? Hr Hy]; subst. inversion Hid as [|? ? Hyid Hrid]; subst.
+    destruct (Qle_bool (pprio y) (pprio p)) eqn:E; simpl.
+    + constructor; [apply IH; assumption|].
+      rewrite Forall_map. apply place_Forall; [|rewrite Forall_map in Hy; exact Hy].
+      apply Qle_bool_iff in E. unfold hord_lt. apply Qle_lteq in E. destruct E as [E|E]; [left; exact E|].
+      right. split; [exact E | exact Hyid].
+    + assert (Hlt : (pprio p < pprio y)%Q).
+      { apply Qnot_le_lt. intro Hle. apply Qle_bool_iff in Hle. congruence. }
+      constructor; [constructor; assumption|].
+      constructor; [left; exact Hlt|].
+      eapply Forall_impl; [|exact Hy]. intros z Hz. eapply hord_lt_trans; [left; exact Hlt | exact Hz].
+Qed.
+
+Lemma children_ok_place : forall p ch,
+  children_ok ch -> key_ok (pkey p) -> ~ In (pkey p) (map pkey ch) -> Forall (fun y => (pid y < pid p)%nat) ch ->
+  children_ok (place p ch).
+Proof.
+  unfold children_ok, hdrs_ok. intros p ch (Hnd & Hk & Hs) Hkp Hnin Hid.
+  rewrite <- !map_pkey_phdr in *.
+  assert (HP : Permutation (map pkey (place p ch)) (pkey p :: map pkey ch)).
+  { change (pkey p :: map pkey ch) with (map pkey (p :: ch)). apply Permutation_map, place_perm. }
+  repeat split.
+  - eapply Permutation_NoDup; [apply Permutation_sym, HP|]. constructor; assumption.
+  - eapply Permutation_Forall; [apply Permutation_sym, HP|]. constructor; assumption.
+  - apply place_sorted; assumption.
+Qed.
+
+Lemma children_ok_replace : forall k c c' ch,
+  children_ok ch -> find_child k ch = Some c -> phdr c' = phdr c -> children_ok (replace_child k c' ch).
+Proof.
+  unfold children_ok. intros. erewrite map_replace_child; eauto.
+Qed.
+
+Lemma sorted_remove_child : forall k ch,
+  StronglySorted hord_lt (map phdr ch) -> StronglySorted hord_lt (map phdr (remove_child k ch)).
+Proof.
+  induction ch as [|x r IH]; simpl; intros H; [constructor|].
+  inversion H as [|? ? Hr Hx]; subst.
+  destruct (String.eqb k (pkey x)); [exact Hr|].
+  simpl. constructor; [apply IH, Hr|].
+  rewrite Forall_map in *. apply Forall_remove_child, Hx.
+Qed.
+
+Lemma nodup_remove_child : forall k ch, NoDup (map pkey ch) -> NoDup (map pkey (remove_child k ch)).
+Proof.
+  induction ch as [|x r IH]; simpl; intros H; [constructor|].
+  inversion H as [|? ? Hx Hr]; subst.
+  destruct (String.eqb k (pkey x)); [exact Hr|].
+  simpl. constructor; [|apply IH, Hr].
+  intro Hin. apply Hx. apply in_map_iff in Hin. destruct Hin as (y & Hy & Hin).
+  apply in_map_iff. exists y. split; [exact Hy | eapply In_remove_child, Hin].
+Qed.
+
+Lemma children_ok_remove : forall k ch, children_ok ch -> children_ok (remove_child k ch).
+Proof.
+  unfold children_ok, hdrs_ok. intros k ch (Hnd & Hk & Hs). rewrite <- !map_pkey_phdr in *.
+  repeat split.
+  - apply nodup_remove_child, Hnd.
+  - rewrite Forall_map in *. apply Forall_remove_child, Hk.
+  - apply sorted_remove_child, Hs.
+Qed.
+
+(* ================================================================== trees *)
+Section ParamInd.
+  Variable P : param -> Prop.
+  Hypothesis Hleaf : forall h ro c d v, P (Leaf h ro c d v).
+  Hypothesis Hmap : forall h ch, Forall P ch -> P (Map h ch).
+  Fixpoint param_ind' (p : param) : P p :=
+    match p with
+    | Leaf h ro c d v => Hleaf h ro c d v
+    | Map h ch =>
+        Hmap h ch ((fix go (l : list param) : Forall P l :=
+                      match l with
+                      | [] => Forall_nil P
+                      | x :: r => Forall_cons x (param_ind' x) (go r)
+                      end) ch)
+    end.
+End ParamInd.
+
+(* every parameter of a tree: the node and all its descendants *)
+Fixpoint nodes (p : param) : list param :=
+  p :: match p with
+       | Leaf _ _ _ _ _ => []
+       | Map _ ch => flat_map nodes ch
+       end.
+
+Lemma nodes_self : forall p, In p (nodes p).
+Proof. destruct p; simpl; auto. Qed.
+
+Lemma nodes_child : forall h ch c x, In c ch -> In x (nodes c) -> In x (nodes (Map h ch)).
+Proof. intros. simpl. right. apply in_flat_map. eauto. Qed.
+
+Lemma nodes_map_inv : forall h ch x, In x (nodes (Map h ch)) -> x = Map h ch \/ exists c, In c ch /\ In x (nodes c).
+Proof. simpl. intros h ch x [H|H]; [auto|]. right. apply in_flat_map in H. exact H. Qed.
+
+Lemma nodes_trans : forall p x y, In x (nodes p) -> In y (nodes x) -> In y (nodes p).
+Proof.
+  intros p. induction p as [h ro c d v|h ch IH] using param_ind'; intros x y Hx Hy.
+  - simpl in Hx. destruct Hx as [<-|[]]. exact Hy.
+  - apply nodes_map_inv in Hx. destruct Hx as [->|(c & Hc & Hx)]; [exact Hy|].
+    rewrite Forall_forall in IH. eapply nodes_child; eauto.
+Qed.
+
+(* what a leaf has to satisfy: default and value valid for its declared constraint *)
+Definition leaf_ok (p : param) : Prop :=
+  match p with
+  | Leaf _ _ c d v => valid_for c d = true /\ valid_for c v = true
+  | Map _ _ => True
+  end.
+
+(* well-formed tree, all identities below n *)
+Inductive wf (n : nat) : param -> Prop :=
+| wf_leaf : forall h ro c d v,
+    (h_id h < n)%nat -> valid_for c d = true -> valid_for c v = true -> wf n (Leaf h ro c d v)
+| wf_map : forall h ch,
+    (h_id h < n)%nat -> Forall (wf n) ch -> children_ok ch -> wf n (Map h ch).
+
+Lemma wf_id : forall n p, wf n p -> (pid p < n)%nat.
+Proof. intros n p H. inversion H; subst; assumption. Qed.
+
+Lemma wf_mono : forall n m p, (n <= m)%nat -> wf n p -> wf m p.
+Proof.
+  intros n m p Hle. induction p as [h ro c d v|h ch IH] using param_ind'; intros H; inversion H; subst.
+  - constructor; auto; lia.
+  - constructor; auto; [lia|].
+    rewrite Forall_forall in *. auto.
+Qed.
+
+Lemma wf_nodes : forall n p, wf n p -> forall x, In x (nodes p) -> wf n x.
+Proof.
+  intros n p. induction p as [h ro c d v|h ch IH] using param_ind'; intros H x Hx.
+  - simpl in Hx. destruct Hx as [<-|[]]. exact H.
+  - apply nodes_map_inv in Hx. destruct Hx as [->|(c & Hc & Hx)]; [exact H|].
+    inversion H; subst. rewrite Forall_forall in *. eauto.
+Qed.
+
+Lemma wf_leaf_ok : forall n p, wf n p -> leaf_ok p.
+Proof. intros n p H. inversion H; subst; simpl; auto. Qed.
+
+(* ------------------------------------------------------------------ modify *)
+Lemma modify_wf : forall n m segs f p p',
+  (n <= m)%nat -> wf n p ->
+  (forall x x', wf n x -> f x = Val x' -> wf m x' /\ phdr x' = phdr x) ->
+  modify segs f p = Val p' -> wf m p' /\ phdr p' = phdr p.
+Proof.
+  intros n m segs f. induction segs as [|k r IH]; intros p p' Hle Hwf Hf H; simpl in H.
+  - apply Hf; assumption.
+  - destruct p as [h ro c d v|h ch]; [discriminate|].
+    destruct (find_child k ch) as [c|] eqn:Ec; [|discriminate].
+    destruct (modify r f c) as [c'|e] eqn:Em; [|discriminate].
+    inversion H; subst. inversion Hwf as [|? ? Hid Hch Hok]; subst.
+    assert (Hc : wf n c) by (rewrite Forall_forall in Hch; apply Hch; eapply find_child_in; eauto).
+    destruct (IH c c' Hle Hc Hf Em) as [Hc' Hh].
+    split; [|reflexivity].
+    constructor; [lia | | eapply children_ok_replace; eauto].
+    apply Forall_replace_child; [|exact Hc'].
+    eapply Forall_impl; [|exact Hch]. intros; eapply wf_mono; eauto.
+Qed.
+
+Lemma modify_raise_at : forall segs f p x e,
+  node_at p segs = Some x -> f x = Raise e -> modify segs f p = Raise e.
+Proof.
+  induction segs as [|k r IH]; simpl; intros f p x e Hn Hf.
+  - inversion Hn; subst. exact Hf.
+  - destruct p as [|h ch]; [discriminate|].
+    destruct (find_child k ch) as [c|]; [|discriminate].
+    rewrite (IH _ _ _ _ Hn Hf). reflexivity.
+Qed.
+
+Lemma modify_val_at : forall segs f p x x',
+  node_at p segs = Some x -> f x = Val x' -> exists p', modify segs f p = Val p'.
+Proof.
+  induction segs as [|k r IH]; simpl; intros f p x x' Hn Hf.
+  - inversion Hn; subst. eauto.
+  - destruct p as [|h ch]; [discriminate|].
+    destruct (find_child k ch) as [c|]; [|discriminate].
+    destruct (IH _ _ _ _ Hn Hf) as [c' ->]. eauto.
+Qed.
+
+Lemma modify_none_at : forall segs f p, node_at p segs = None -> modify segs f p = Raise KeyError.
+Proof.
+  induction segs as [|k r IH]; simpl; intros f p Hn; [discriminate|].
+  destruct p as [|h ch]; [reflexivity|].
+  destruct (find_child k ch) as [c|]; [|reflexivity].
+  rewrite (IH _ _ Hn). reflexivity.
+Qed.
+
+(* a successful modify applied f to the node the path leads to, and the same
+   path leads to the result afterwards (f keeps the key) *)
+Lemma modify_inv : forall segs f p p',
+  (forall x x', f x = Val x' -> pkey x' = pkey x) ->
+  modify segs f p = Val p' ->
+  pkey p' = pkey p /\ exists x x', node_at p segs = Some x /\ f x = Val x' /\ node_at p' segs = Some x'.
+Proof.
+  induction segs as [|k r IH]; simpl; intros f p p' Hf H.
+  - split; [apply Hf, H | eauto].
+  - destruct p as [|h ch]; [discriminate|].
+    destruct (find_child k ch) as [c|] eqn:Ec; [|discriminate].
+    destruct (modify r f c) as [c'|] eqn:Em; [|discriminate].
+    inversion H; subst. split; [reflexivity|].
+    destruct (IH _ _ _ Hf Em) as (Hk & x & x' & Hn & Hfx & Hn').
+    exists x, x'. repeat split; auto. simpl.
+    rewrite (find_child_replace_same k c c' ch Ec); [exact Hn'|].
+    rewrite Hk. eapply find_child_key, Ec.
+Qed.
+
+(* leaves after a modify: old leaves, or leaves of what f produced *)
+Definition is_leaf (p : param) : Prop := match p with Leaf _ _ _ _ _ => True | Map _ _ => False end.
+
+Lemma modify_leaves : forall segs f p p' L,
+  modify segs f p = Val p' -> is_leaf L -> In L (nodes p') ->
+  In L (nodes p) \/ exists x x', In x (nodes p) /\ f x = Val x' /\ In L (nodes x').
+Proof.
+  induction segs as [|k r IH]; simpl; intros f p p' L H HL Hin.
+  - right. exists p, p'. split; [apply nodes_self | auto].
+  - destruct p as [|h ch]; [discriminate|].
+    destruct (find_child k ch) as [c|] eqn:Ec; [|discriminate].
+    destruct (modify r f c) as [c'|] eqn:Em; [|discriminate].
+    inversion H; subst.
+    apply nodes_map_inv in Hin. destruct Hin as [->|(y & Hy & Hin)]; [destruct HL|].
+    apply In_replace_child in Hy. destruct Hy as [->|Hy].
+    + destruct (IH _ _ _ _ Em HL Hin) as [H1|(x & x' & H1 & H2 & H3)].
+      * left. eapply nodes_child; [eapply find_child_in, Ec | exact H1].
+      * right. exists x, x'. repeat split; auto. eapply nodes_child; [eapply find_child_in, Ec | exact H1].
+    + left. eapply nodes_child; eauto.
+Qed.
+
+(* ------------------------------------------------------------------ remove *)
+Lemma remove_at_wf : forall n segs p p' x,
+  wf n p -> remove_at segs p = Val (p', x) -> wf n p' /\ phdr p' = phdr p /\ wf n x.
+Proof.
+  intros n segs. induction segs as [|k r IH]; intros p p' x Hwf H; simpl in H; [discriminate|].
+  destruct p as [|h ch]; [discriminate|].
+  destruct (find_child k ch) as [c|] eqn:Ec; [|discriminate].
+  inversion Hwf as [|? ? Hid Hch Hok]; subst.
+  assert (Hc : wf n c) by (rewrite Forall_forall in Hch; apply Hch; eapply find_child_in; eauto).
+  destruct r as [|k2 r2].
+  - inversion H; subst. repeat split; auto.
+    constructor; [exact Hid | apply Forall_remove_child, Hch | apply children_ok_remove, Hok].
+  - destruct (remove_at (k2 :: r2) c) as [[c' y]|] eqn:Er; [|discriminate].
+    inversion H; subst.
+    destruct (IH _ _ _ Hc Er) as (Hc' & Hh & Hx).
+    repeat split; auto.
+    constructor; [exact Hid | apply Forall_replace_child; assumption | eapply children_ok_replace; eauto].
+Qed.
+
+Lemma remove_at_leaves : forall segs p p' x L,
+  remove_at segs p = Val (p', x) -> is_leaf L -> In L (nodes p') -> In L (nodes p).
+Proof.
+  induction segs as [|k r IH]; intros p p' x L H HL Hin; simpl in H; [discriminate|].
+  destruct p as [|h ch]; [discriminate|].
+  destruct (find_child k ch) as [c|] eqn:Ec; [|discriminate].
+  destruct r as [|k2 r2].
+  - inversion H; subst.
+    apply nodes_map_inv in Hin. destruct Hin as [->|(y & Hy & Hin)]; [destruct HL|].
+    eapply nodes_child; [eapply In_remove_child, Hy | exact Hin].
+  - destruct (remove_at (k2 :: r2) c) as [[c' y]|] eqn:Er; [|discriminate].
+    inversion H; subst.
+    apply nodes_map_inv in Hin. destruct Hin as [->|(z & Hz & Hin)]; [destruct HL|].
+    apply In_replace_child in Hz. destruct Hz as [->|Hz].
+    + eapply nodes_child; [eapply find_child_in, Ec | eapply IH; eauto].
+    + eapply nodes_child; eauto.
+Qed.
+
+(* ================================================================== one operation keeps the tree well-formed *)
+Lemma set_value_wf : forall q n m v x x',
+  (n <= m)%nat -> wf n x -> set_value q v x = Val x' -> wf m x' /\ phdr x' = phdr x.
+Proof.
+  intros q n m v x x' Hle Hwf H. apply set_value_val in H.
+  destruct H as (h & ro & c & d & v0 & -> & -> & Hv & _).
+  inversion Hwf; subst. split; [|reflexivity]. constructor; auto; lia.
+Qed.
+
+Lemma first_exn_none : forall a b, first_exn a b = None -> a = None /\ b = None.
+Proof. intros [e|] b H; simpl in H; [discriminate | auto]. Qed.
+
+Lemma ctor_checks_repaired_none : forall s par,
+  ctor_checks repaired s par = None ->
+  unit_checks s = None /\ default_checks s = None /\ base_checks s par = None.
+Proof.
+  intros s par H. unfold ctor_checks in H. simpl in H.
+  apply first_exn_none in H. destruct H as [H1 H]. apply first_exn_none in H. tauto.
+Qed.
+
+Lemma base_checks_key_ok : forall s par, base_checks s par = None -> key_ok (s_key s).
+Proof.
+  unfold base_checks, key_ok. intros s par H.
+  destruct (String.eqb (s_key s) EmptyString) eqn:E1; [discriminate|].
+  destruct (has_dot (s_key s)) eqn:E2; [discriminate|].
+  split; [apply String.eqb_neq, E1 | reflexivity].
+Qed.
+
+Lemma node_of_hdr : forall id s, phdr (node_of id s) = mkHdr id (s_key s) (s_prio s).
+Proof. intros id s. unfold node_of. destruct (s_kind s); reflexivity. Qed.
+
+Lemma node_of_key : forall id s, pkey (node_of id s) = s_key s.
+Proof. intros. unfold pkey. rewrite node_of_hdr. reflexivity. Qed.
+
+Lemma node_of_id : forall id s, pid (node_of id s) = id.
+Proof. intros. unfold pid. rewrite node_of_hdr. reflexivity. Qed.
+
+(* a constructor that passed its own validation builds a parameter whose
+   default (= initial value) is valid *)
+Lemma default_checks_leaf_ok : forall id s, default_checks s = None -> leaf_ok (node_of id s).
+Proof.
+  intros id s H. unfold node_of, default_checks in *.
+  destruct (s_kind s) eqn:Ek; simpl; try exact I; destruct (s_default s) eqn:Ed; simpl in *;
+    repeat match goal with
+           | H : context [if ?b then _ else _] |- _ => destruct b eqn:?; try discriminate H
+           end; simpl in *; try discriminate;
+    repeat match goal with
+           | H : ?b = true |- context [?b] => rewrite H
+           | |- context [N.eqb ?a ?a] => rewrite N.eqb_refl
+           end; simpl; auto.
+Qed.
+
+Lemma children_ok_nil : children_ok [].
+Proof. unfold children_ok, hdrs_ok. simpl. repeat split; constructor. Qed.
+
+Lemma node_of_wf : forall id s, leaf_ok (node_of id s) -> wf (S id) (node_of id s).
+Proof.
+  intros id s H. unfold node_of in *. destruct (s_kind s); simpl in *;
+    try (destruct H; constructor; simpl; auto; fail).
+  constructor; simpl; [lia | constructor | apply children_ok_nil].
+Qed.
+
+Lemma map_add_wf : forall n s x x',
+  wf n x -> key_ok (s_key s) -> leaf_ok (node_of n s) ->
+  map_add (node_of n s) x = Val x' -> wf (S n) x' /\ phdr x' = phdr x.
+Proof.
+  intros n s x x' Hwf Hk Hl H. destruct x as [|h ch]; simpl in H; [discriminate|].
+  destruct (has_key (pkey (node_of n s)) ch) eqn:Eh; [discriminate|].
+  inversion H; subst. inversion Hwf as [|? ? Hid Hch Hok]; subst.
+  split; [|reflexivity].
+  assert (Hs : StronglySorted prio_le ch) by (apply sorted_hord_prio; apply Hok).
+  rewrite py_sorted_append by exact Hs.
+  constructor; [lia | |].
+  - apply place_Forall; [apply node_of_wf, Hl|].
+    eapply Forall_impl; [|exact Hch]. intros y Hy. eapply wf_mono; [|exact Hy]. lia.
+  - apply children_ok_place; auto.
+    + rewrite node_of_key. exact Hk.
+    + apply has_key_false, Eh.
+    + rewrite node_of_id. eapply Forall_impl; [|exact Hch]. intros y Hy. apply wf_id, Hy.
+Qed.
+
+Lemma step_root_wf : forall n root o, wf n root -> wf (S n) (fst (step_root repaired n root o)).
+Proof.
+  intros n root o Hwf.
+  assert (Hm : wf (S n) root) by (eapply wf_mono; [|exact Hwf]; lia).
+  destruct o as [path v|pp s|pp s|path|path|path v|path]; simpl.
+  - destruct (modify (segments path) (set_value repaired v) root) as [r'|e] eqn:E; simpl; [|exact Hm].
+    eapply modify_wf in E; [apply E | | exact Hwf |]; [lia|].
+    intros x x' Hx Hs. eapply set_value_wf; [|exact Hx|exact Hs]. lia.
+  - destruct (node_at root (psegs pp)) as [par|]; simpl; [|exact Hm].
+    destruct (ctor_checks repaired s (Some par)) eqn:Ec; simpl; [exact Hm|].
+    apply ctor_checks_repaired_none in Ec. destruct Ec as (_ & Hd & Hb).
+    destruct (modify (psegs pp) (map_add (node_of n s)) root) as [r'|e] eqn:E; simpl; [|exact Hm].
+    eapply modify_wf in E; [apply E | | exact Hwf |]; [lia|].
+    intros x x' Hx Ha. eapply map_add_wf; eauto.
+    + eapply base_checks_key_ok, Hb.
+    + apply default_checks_leaf_ok, Hd.
+  - destruct (node_at root (psegs pp)) as [par|]; simpl; [|exact Hm].
+    destruct (ctor_checks repaired s None) eqn:Ec; simpl; [exact Hm|].
+    apply ctor_checks_repaired_none in Ec. destruct Ec as (_ & Hd & Hb).
+    destruct (modify (psegs pp) (map_add (node_of n s)) root) as [r'|e] eqn:E; simpl; [|exact Hm].
+    eapply modify_wf in E; [apply E | | exact Hwf |]; [lia|].
+    intros x x' Hx Ha. eapply map_add_wf; eauto.
+    + eapply base_checks_key_ok, Hb.
+    + apply default_checks_leaf_ok, Hd.
+  - destruct (remove_at (segments path) root) as [[r' x]|e] eqn:E; simpl; [|exact Hm].
+    eapply remove_at_wf in E; [|exact Hwf]. eapply wf_mono; [|apply E]. lia.
+  - destruct (get root path) as [p|e]; simpl; exact Hm.
+  - destruct (modify (segments path) (set_value repaired v) root) as [r'|e] eqn:E; simpl; [|exact Hm].
+    eapply modify_wf in E; [apply E | | exact Hwf |]; [lia|].
+    intros x x' Hx Hs. eapply set_value_wf; [|exact Hx|exact Hs]. lia.
+  - destruct (get root path) as [[? ? ? ? ?|? ?]|e]; simpl; exact Hm.
+Qed.
+
+Definition wf_state (st : state) : Prop := wf (st_next st) (st_root st).
+
+Lemma step_wf : forall st o, wf_state st -> wf_state (fst (step repaired st o)).
+Proof.
+  unfold wf_state, step. intros st o H.
+  pose proof (step_root_wf (st_next st) (st_root st) o H) as H'.
+  destruct (step_root repaired (st_next st) (st_root st) o) as [r' out]. simpl in *. exact H'.
+Qed.
+
+Lemma run_wf : forall ops st, wf_state st -> wf_state (run repaired st ops).
+Proof. induction ops as [|o r IH]; simpl; intros st H; [exact H | apply IH, step_wf, H]. Qed.
+
+Lemma init_wf : wf_state init.
+Proof. unfold wf_state, init. simpl. constructor; simpl; [lia | constructor | apply children_ok_nil]. Qed.
+
+(* T1: after every sequence of operations the tree is well-formed; in
+   particular every parameter holds a value (and a default) that is valid for
+   its declared type / bounds / options / quantity type. *)
+Theorem value_always_valid : forall ops p,
+  In p (nodes (st_root (run repaired init ops))) -> leaf_ok p.
+Proof.
+  intros ops p Hin. eapply wf_leaf_ok, wf_nodes; [|exact Hin]. apply (run_wf ops init init_wf).
+Qed.
+
+Theorem value_always_valid_from : forall st ops p,
+  wf_state st -> In p (nodes (st_root (run repaired st ops))) -> leaf_ok p.
+Proof.
+  intros st ops p Hwf Hin. eapply wf_leaf_ok, wf_nodes; [|exact Hin]. apply (run_wf ops st Hwf).
+Qed.
+
+(* ================================================================== T2: a rejected attempt changes nothing *)
+Theorem rejected_unchanged_root : forall n root o e,
+  snd (step_root repaired n root o) = ORaise e -> fst (step_root repaired n root o) = root.
+Proof.
+  intros n root o e. destruct o as [path v|pp s|pp s|path|path|path v|path]; simpl;
+    repeat match goal with
+           | |- context [match ?x with _ => _ end] => destruct x eqn:?; simpl
+           end; intros H; try discriminate H; reflexivity.
+Qed.
+
+Theorem rejected_unchanged : forall st o e,
+  snd (step repaired st o) = ORaise e -> st_root (fst (step repaired st o)) = st_root st.
+Proof.
+  intros st o e. unfold step.
+  pose proof (rejected_unchanged_root (st_next st) (st_root st) o e) as H.
+  destruct (step_root repaired (st_next st) (st_root st) o) as [r' out]. simpl in *. exact H.
+Qed.
+
+(* an invalid value, or any value for a read-only parameter, IS rejected; a
+   valid value for a writable parameter is accepted and becomes the value *)
+Theorem set_value_decides : forall h ro c d v0 v,
+  (ro = false /\ valid_for c v = true -> set_value repaired v (Leaf h ro c d v0) = Val (Leaf h ro c d v)) /\
+  (~ (ro = false /\ valid_for c v = true) -> exists e, set_value repaired v (Leaf h ro c d v0) = Raise e).
+Proof.
+  intros. simpl. destruct (check_set repaired ro c v) eqn:E.
+  - split; [|eauto]. intros H. apply check_set_repaired in H. congruence.
+  - split; [reflexivity|]. intros H. apply check_set_repaired in E. tauto.
+Qed.
+
+(* ================================================================== T3/T4: read-only and default constancy *)
+Lemma In_insert_sorted : forall x l y, In y (insert_sorted x l) -> y = x \/ In y l.
+Proof.
+  induction l as [|z l IH]; simpl; intros y H; [destruct H; auto|].
+  destruct (prio_ltb z x); simpl in H; destruct H as [H|H]; auto.
+  destruct (IH _ H); auto.
+Qed.
+
+Lemma In_py_sorted : forall l y, In y (py_sorted l) -> In y l.
+Proof.
+  unfold py_sorted. induction l as [|x l IH]; simpl; intros y H; [exact H|].
+  apply In_insert_sorted in H. destruct H; auto.
+Qed.
+
+Lemma node_of_nodes : forall id s, nodes (node_of id s) = [node_of id s].
+Proof. intros. unfold node_of. destruct (s_kind s); reflexivity. Qed.
+
+Lemma map_add_leaves : forall p x x' L,
+  map_add p x = Val x' -> is_leaf L -> In L (nodes x') -> In L (nodes x) \/ In L (nodes p).
+Proof.
+  intros p x x' L H HL Hin. destruct x as [|h ch]; simpl in H; [discriminate|].
+  destruct (has_key (pkey p) ch); [discriminate|]. inversion H; subst.
+  apply nodes_map_inv in Hin. destruct Hin as [->|(y & Hy & Hin)]; [destruct HL|].
+  apply In_py_sorted, in_app_or in Hy. destruct Hy as [Hy|[<-|[]]]; [|auto].
+  left. eapply nodes_child; eauto.
+Qed.
+
+(* where a leaf of the tree after one operation comes from: it is a leaf of
+   the tree before, with the same header, read-only flag, constraint and
+   default, and the same value unless it is writable; or it is the object this
+   operation created (identity n, value = default) *)
+Lemma step_root_leaf_origin : forall n root o h ro c d v',
+  In (Leaf h ro c d v') (nodes (fst (step_root repaired n root o))) ->
+  (exists v, In (Leaf h ro c d v) (nodes root) /\ (v' = v \/ ro = false)) \/
+  (h_id h = n /\ v' = d).
+Proof.
+  intros n root o h ro c d v' Hin.
+  assert (Hold : In (Leaf h ro c d v') (nodes root) ->
+                 (exists v, In (Leaf h ro c d v) (nodes root) /\ (v' = v \/ ro = false)) \/ (h_id h = n /\ v' = d))
+    by (intros; left; eauto).
+  assert (Hset : forall path v r', modify (segments path) (set_value repaired v) root = Val r' ->
+                 In (Leaf h ro c d v') (nodes r') ->
+                 (exists v, In (Leaf h ro c d v) (nodes root) /\ (v' = v \/ ro = false)) \/ (h_id h = n /\ v' = d)).
+  { intros path v r' E Hi. eapply (modify_leaves _ _ _ _ (Leaf h ro c d v')) in E; [|exact I|exact Hi].
+    destruct E as [E|(x & x' & Hx & Hs & Hx')]; [auto|].
+    apply set_value_repaired_val in Hs. destruct Hs as (h0 & c0 & d0 & v0 & -> & -> & _).
+    simpl in Hx'. destruct Hx' as [Hx'|[]]. inversion Hx'; subst. left. eauto. }
+  assert (Hadd : forall pp s r', modify (psegs pp) (map_add (node_of n s)) root = Val r' ->
+                 In (Leaf h ro c d v') (nodes r') ->
+                 (exists v, In (Leaf h ro c d v) (nodes root) /\ (v' = v \/ ro = false)) \/ (h_id h = n /\ v' = d)).
+  { intros pp s r' E Hi. eapply (modify_leaves _ _ _ _ (Leaf h ro c d v')) in E; [|exact I|exact Hi].
+    destruct E as [E|(x & x' & Hx & Hs & Hx')]; [auto|].
+    eapply (map_add_leaves _ _ _ (Leaf h ro c d v')) in Hs; [|exact I|exact Hx'].
+    destruct Hs as [Hs|Hs].
+    - apply Hold. eapply nodes_trans; eauto.
+    - right. rewrite node_of_nodes in Hs. destruct Hs as [Hs|[]].
+      unfold node_of in Hs. destruct (s_kind s); inversion Hs; subst; auto. }
+  destruct o as [path v|pp s|pp s|path|path|path v|path]; simpl in Hin.
+  - destruct (modify (segments path) (set_value repaired v) root) as [r'|e] eqn:E; simpl in Hin; eauto.
+  - destruct (node_at root (psegs pp)) as [par|]; simpl in Hin; auto.
+    destruct (ctor_checks repaired s (Some par)); simpl in Hin; auto.
+    destruct (modify (psegs pp) (map_add (node_of n s)) root) as [r'|e] eqn:E; simpl in Hin; eauto.
+  - destruct (node_at root (psegs pp)) as [par|]; simpl in Hin; auto.
+    destruct (ctor_checks repaired s None); simpl in Hin; auto.
+    destruct (modify (psegs pp) (map_add (node_of n s)) root) as [r'|e] eqn:E; simpl in Hin; eauto.
+  - destruct (remove_at (segments path) root) as [[r' x]|e] eqn:E; simpl in Hin; auto.
+    apply Hold. eapply (remove_at_leaves _ _ _ _ (Leaf h ro c d v')); eauto. exact I.
+  - destruct (get root path) as [p|e]; simpl in Hin; auto.
+  - destruct (modify (segments path) (set_value repaired v) root) as [r'|e] eqn:E; simpl in Hin; eauto.
+  - destruct (get root path) as [[? ? ? ? ?|? ?]|e]; simpl in Hin; auto.
 Qed.
